@@ -59,7 +59,7 @@ def applyT (c : TCall) (t : Tree) : Except Err (Option Tree) :=
     .ok (filterByLength op (((c.get "filtervalue").bind String.toNat?).getD 0) t)
   | "ptb_delete_traces" =>
     let keep := match c.get "keep" with
-      | some k => (k.splitOn ";").filterMap decS
+      | some k => (k.splitOn "!").filterMap decS
       | none => []
     .ok (some (ptbDeleteTraces { keep := keep, keepall := c.has "keepall", keepcoindex := c.has "keepcoindex" } t))
   | "delete_terminal" => .ok (some (deleteTerminal t (((c.get "k").bind String.toNat?).getD 0)))
